@@ -1,0 +1,15 @@
+//go:build !verif
+
+package gcsca
+
+import "crypto/x509"
+
+// uploadOrder returns the pending certificates' key version names in the map's own iteration
+// order.
+func uploadOrder(certs map[string]*x509.Certificate) []string {
+	names := make([]string, 0, len(certs))
+	for name := range certs {
+		names = append(names, name)
+	}
+	return names
+}
